@@ -3,8 +3,8 @@
 # ${SEED_SRC:-/tmp/seeded-out}/<ID>/ (patch.diff, seeded_demo.rs): in a scratch worktree of /repo it must
 # (1) apply and compile, (2) make the demo fail, (3) leave the suite's result unchanged (only the 4
 # baseline failures), and (4) the demo must pass without the change. Results: /tmp/seeded-out/<ID>/verify.log
-WT=/tmp/seedverify
-export CARGO_TARGET_DIR=/tmp/seedverify-target CARGO_NET_OFFLINE=true
+WT=${SEED_WT:-/tmp/seedverify}
+export CARGO_TARGET_DIR=${SEED_WT:-/tmp/seedverify}-target CARGO_NET_OFFLINE=true
 if [ ! -d $WT ]; then git -C /repo worktree add $WT HEAD >/dev/null 2>&1 || exit 2; fi
 cd $WT || exit 2
 git checkout -q --detach "$(git -C /repo rev-parse HEAD)" 2>/dev/null
